@@ -49,9 +49,9 @@ Proof.
     | Ht : In _ (_ :: _) |- _ => destruct Ht as [<-|Ht]
     | Ht : In _ [] |- _ => destruct Ht
     end; try (eapply find_task_some_in; eassumption).
-  (* force N: the list of tasks *)
-  match goal with Hm : mapM (find_task st) _ = Some _ |- _ => destruct (mapM_in _ _ _ Hm t Ht) as (x & _ & Hx) end.
-  eapply find_task_some_in; eassumption.
+  (* the constraints over a list of tasks *)
+  all: match goal with Hm : mapM (find_task _) _ = Some _, Ht0 : In _ _ |- _ => destruct (mapM_in _ _ _ Hm _ Ht0) as (x & _ & Hx) end;
+    eapply find_task_some_in; eassumption.
 Qed.
 
 Lemma step_inv st o st' : inv st -> step_problem st o = Ok st' -> inv st'.
